@@ -905,3 +905,93 @@ Example C20_graph_run_fin_est_example :
      (None, Some 2); (None, Some 2); (None, Some 2); (None, Some 2); (Some 1, Some 2); (Some 1, Some 1);
      (Some 1, Some 1); (Some 1, Some 1)]%nat.
 Proof. exact run_fin_est_example. Qed.
+
+(* ---------------------------------------------------------------------------------------- *)
+(* closer-c20h: the completable field of the mirror (GraphRunCompl.v) *)
+From C20 Require Import GraphRunCompl.
+
+(* FindGHOST restarted from a block g, for ANY condition that agrees with a block predicate P on exact
+   cumulative bits, is monotone towards bit lists under a block, fails on the empty list (P closed
+   under ancestors): it answers g (or nothing) exactly when no child of g satisfies P.  (Sv / the
+   tolerance hypothesis only feed borrowed GraphGhost lemmas.) *)
+Theorem C20_graph_find_ghost_compl :
+  forall (t : tree) (lbl : block -> nat) (ws : list N) (G : entries) (ins : list (block * bit)) (Sv : list vote),
+  cum_ok t G ins -> anc_wf t G -> chain_inv t G ->
+  (forall p, In p ins -> exists e, eget (fst p) G = Some e) ->
+  (forall p, In p ins -> in_tree t (fst p)) ->
+  desc_complete G -> desc_sound G -> (0 < total ws)%N -> tolerant ws Sv = true ->
+  forall (cond : list bit -> bool) (P : block -> bool),
+  (forall b bits, (forall bt, memb bt bits = ins_bit t ins bt b) -> cond bits = P b) ->
+  (forall b v v', under t ins b v' -> (forall bt, memb bt v = true -> memb bt v' = true) ->
+     cond v = true -> cond v' = true) ->
+  cond nil = false ->
+  (forall a b, anc t a b -> P b = true -> P a = true) ->
+  (exists e0, eget 0%nat G = Some e0) ->
+  forall heads, heads_cover t G heads ->
+  forall g, P g = true -> (exists z ez, eget z G = Some ez /\ anc t g z) ->
+  (match find_ghost t lbl G heads (Some g) cond with None => true | Some x => Nat.eqb x g end) =
+  negb (existsb P (children t g)).
+Proof. exact find_ghost_compl. Qed.
+Print Assumptions C20_graph_find_ghost_compl.
+
+(* the instance of Round.update: the wrapping possibleToPrecommit condition on a reachable graph, once
+   the precommits seen reach the threshold *)
+Theorem C20_graph_find_ghost_possible_compl :
+  forall (t : tree) (lbl : block -> nat) (ws : list N),
+  (0 < total ws)%N -> (total ws < 18446744073709551616)%N ->
+  forall G heads eqv (S : nat -> list vote) ins,
+  reach_all t lbl G heads eqv S ins -> tolerant ws (S 1%nat) = true ->
+  (threshold ws <= cur_weight ws (S 1%nat))%N ->
+  (forall p x, In x (S p) -> in_tree t (vblock x)) ->
+  forall g, possible t ws (S 1%nat) g = true -> (exists z ez, eget z G = Some ez /\ anc t g z) ->
+  (match find_ghost t lbl G heads (Some g) (possible_bits ws eqv (cur_weight ws (S 1%nat))) with
+   | None => true | Some x => Nat.eqb x g end) =
+  negb (existsb (possible t ws (S 1%nat)) (children t g)).
+Proof. exact reach_all_find_ghost_compl. Qed.
+Print Assumptions C20_graph_find_ghost_possible_compl.
+
+(* ONE Round.update: completable becomes the specification's *)
+Theorem C20_graph_update_compl :
+  forall (t : tree) (lbl : block -> nat) (ws : list N),
+  (0 < total ws)%N -> (total ws < 18446744073709551616)%N ->
+  forall s (S : nat -> list vote) ins V0 C0,
+  rel t lbl s S ins -> tolerant ws (S 0%nat) = true -> tolerant ws (S 1%nat) = true ->
+  (forall p x, In x (S p) -> in_tree t (vblock x)) ->
+  r_pvg s = ghost t ws (S 0%nat) -> subset V0 (S 0%nat) -> subset C0 (S 1%nat) ->
+  r_compl s = completable t ws V0 C0 ->
+  r_compl (update t lbl ws s) = completable t ws (S 0%nat) (S 1%nat).
+Proof. exact update_compl. Qed.
+Print Assumptions C20_graph_update_compl.
+
+(* ALONG THE RUN: after every prefix of every history (hypotheses of C20_graph_import_run_fin_est) the
+   completable field of the mirror is the specification's *)
+Theorem C20_graph_import_run_compl :
+  forall (t : tree) (lbl : block -> nat) (ws : list N) (h : list (nat * vote)),
+  (0 < total ws)%N -> (total ws < 18446744073709551616)%N ->
+  (forall o, In o h -> (fst o < 2)%nat) ->
+  tolerant ws (votes_of 0 h) = true -> tolerant ws (votes_of 1 h) = true ->
+  (forall o, In o h -> known_voter ws (snd o) = true -> in_tree t (vblock (snd o))) ->
+  forall h1 h2, h = h1 ++ h2 ->
+  r_compl (run t lbl ws h1) = completable t ws (votes_of 0 h1) (votes_of 1 h1).
+Proof. exact run_compl_prefix. Qed.
+Print Assumptions C20_graph_import_run_compl.
+
+(* non-vacuity: all hypotheses hold; estimate = ghost = block 1 with the threshold of precommits
+   reached: not completable while child 2 is possible (FindGHOST answers below 1), completable once no
+   child is (FindGHOST answers 1); duplicate, outside voter, equivocation, third vote included *)
+Example C20_graph_run_compl_example :
+  let t := [0; 1; 1]%nat in let ws := [1; 1; 1; 1]%N in
+  let h := [(0, mkVote 0 2 0); (0, mkVote 1 2 0); (0, mkVote 2 3 0); (0, mkVote 3 3 0);
+            (1, mkVote 0 2 0); (1, mkVote 1 1 0); (1, mkVote 2 1 0); (1, mkVote 2 1 0); (0, mkVote 7 3 0);
+            (1, mkVote 3 1 0); (1, mkVote 3 3 0); (1, mkVote 3 2 0)]%nat in
+  (forall o, In o h -> (fst o < 2)%nat) /\ (0 < total ws)%N /\ (total ws < 18446744073709551616)%N /\
+  tolerant ws (votes_of 0 h) = true /\ tolerant ws (votes_of 1 h) = true /\
+  (forall o, In o h -> known_voter ws (snd o) = true -> in_tree t (vblock (snd o))) /\
+  map (fun k => let s := run t (fun b => b) ws (firstn k h) in (r_pvg s, r_est s, r_compl s)) (seq 0 13) =
+    [(None, None, false); (None, None, false); (None, None, false); (Some 1, Some 1, false);
+     (Some 1, Some 1, false); (Some 1, Some 1, false); (Some 1, Some 1, false); (Some 1, Some 1, false);
+     (Some 1, Some 1, false); (Some 1, Some 1, false); (Some 1, Some 1, true); (Some 1, Some 1, true);
+     (Some 1, Some 1, true)]%nat /\
+  map (fun k => completable t ws (votes_of 0 (firstn k h)) (votes_of 1 (firstn k h))) (seq 0 13) =
+    [false; false; false; false; false; false; false; false; false; false; true; true; true].
+Proof. exact run_compl_example. Qed.
